@@ -266,6 +266,8 @@ mod serdeize;
 pub mod traits;
 pub mod transcendental;
 pub mod types;
+#[cfg(substrate_fixed_verif)]
+pub mod verif;
 mod wide_div;
 mod wrapping;
 
